@@ -6,6 +6,18 @@ _ALL = ['C%02d' % i for i in range(1, 21)]
 
 CHECKS = [
     dict(
+        id='C01',
+        text='Typed random expression DAGs (every operator kind of the statement, explicit sub-tree sharing, Python '
+             'literals and operator overloads, partial parameter dictionaries) on random tables are evaluated through '
+             'get_value_c, get_value_and_derivatives, aggregated mode, the pure-Python get_value and BIOGEME.simulate of '
+             'several formulas side by side, and compared row by row with an independent reference semantics that carries '
+             'forward error bounds (well-posedness filter). Exploration fits a property over unbounded programs x inputs.',
+        note='Trusts vlib/refsem.py (reference evaluator) and its error analysis; the compiled engine is a black box; '
+             'ill-posed cases (<20%) are counted and not judged; one engine-level defect is a listed known finding.',
+        technique='property-based testing (Hypothesis): generated expression DAGs vs independent reference evaluator, '
+                  'differential Python-vs-engine and shared-vs-unshared metamorphic relation',
+    ),
+    dict(
         id='C11',
         text='Generated search over all 21 catalogue entries x sizes x seeds and over the quantile transform on '
              '(0,1) incl. extreme tails, judged against an independently coded radical inverse, stratum counting, '
